@@ -76,8 +76,11 @@ class TypeRegistry:
             if not self.validator(f):
                 raise TypeError(f'Invalid register target: {f}, must pass <{self.validator}> validate')
             self._registry.insert(0, (detector, f, priority))
-            if priority:
-                self._registry.sort(key=lambda v: -v[2])
+            # always keep the registry ordered by priority (the sort is stable, so the most
+            # recent registration stays first among equal priorities), and drop cached
+            # resolutions, which may be superseded by this registration
+            self._registry.sort(key=lambda v: -v[2])
+            self._cache.clear()
             return f
 
         # before runtime, type will be compiled and applied
